@@ -416,7 +416,7 @@ open AasVerif AasVerif.Lex
 
 /-- `typescript/common.py:string_literal` copies U+2028 and U+2029 unescaped. Read with the rules of
 ECMAScript 2019 and later (the stated edition) that is one string literal; U+2028 still ends a `//` comment. -/
-theorem ts_string_literal_admits_ls_ps :
+theorem ts_string_literal_allows_ls_ps :
     lexC js .code [34, 97, 0x2028, 0x2029, 34] = [.str [97, 0x2028, 0x2029]] ∧
     lexC js .code [47, 47, 97, 0x2028, 98] = [.comment [97], .nl, .code 98] := by
   decide
